@@ -7,6 +7,7 @@ from typing import Any
 
 # property id -> profile module name
 PROPERTY_PROFILE = {
+    "C18": "crash",
     "C19": "race",
     "C03": "ctx",
     "C04": "dml",
